@@ -93,6 +93,8 @@ DecFails(ev, r) ==
   IN IF r = 0 \/ E.codec # c THEN {<<"ANY", "H:reader without a matching Enc event">>}
      ELSE IF ev.cap >= n
      THEN Bad(ev.fault = 0, P, "decoder faulted on an exact-size copy of the encoder's output")
+          \cup Bad(ev.fault # 1 \/ ev.foff_out = -1000000, "C13",
+                   "decoder accessed memory past an output array of exactly `capacity' elements (capacity = element count)")
           \cup Bad(ev.fault # 0 \/ (ev.ret = n /\ ev.ys = xs), P, "decoded sequence differs from the encoded sequence")
           \cup Bad(ev.fault # 0 \/ ~takesBytes \/ ev.aux = E.written, P, "decoder consumed a different number of bytes than the encoder wrote")
           \cup Bad(ev.fault # 0 \/ c # "group" \/ ev.aux = E.written, "C16", "group decoder's size differs from the bytes its encoder wrote")
@@ -167,7 +169,7 @@ WireNote(ev) ==
   IF ev.e = "Enc" /\ ev.fault = 0 /\ Len(ev.xs) <= 40 /\ Accepts(ev.codec, ev.param, ev.xs) /\ ev.written >= 1
      /\ (ev.codec \in WireFmt!WireCodecs \/ (ev.codec = "adaptive" /\ ev.hdr[1] \in WireFmt!AdaptiveTypes))
   THEN LET want == IF ev.codec = "adaptive" THEN WireFmt!AdaptiveEnc(ev.hdr[1], ev.xs)
-                   ELSE WireFmt!Enc(ev.codec, ev.xs)
+                   ELSE WireFmt!Enc(ev.codec, ev.param, ev.xs)
            k == Len(ev.hdr)
            same == Len(want) = ev.written /\ k <= Len(want) /\ SubSeq(want, 1, k) = ev.hdr
        IN PrintT(<<"NOTE", "wire-checked", 1>>)
